@@ -5,7 +5,7 @@ lists below enumerate program shapes; the solver quantifies over the datapoints.
 """
 import itertools
 
-from vt.astb import (unpivot, jbody, agg, aggr, analytic, assign, between, binop, calc, case, cast, const, drop, filter_, having, if_, in_,
+from vt.astb import (exists_in, unpivot, jbody, agg, aggr, analytic, assign, between, binop, calc, case, cast, const, drop, filter_, having, if_, in_,
                      join, keep, member, paramop, par, rename, setop, start, structure, sub, unop, var, window, optional)
 
 I, M = "Identifier", "Measure"
@@ -146,6 +146,11 @@ def c01(tier):
     out.append(T("calc_abs_neg", calc("DS_X", [(None, "Me_9", unop("abs", unop("-", "Me_2")))]), n))
     out.append(T("calc_ceil", calc("DS_X", [(None, "Me_9", unop("ceil", "Me_2"))]), n))
     out.append(T("calc_floor", calc("DS_X", [(None, "Me_9", unop("floor", "Me_2"))]), n))
+    out.append(T("substr_ds_2_1", paramop("substr", ["DS_S"], [2, 1]), n))
+    out.append(T("substr_ds_1", paramop("substr", ["DS_S"], [1]), n))
+    out.append(T("substr_ds_default_len", paramop("substr", ["DS_S"], [2, optional()]), n))
+    out.append(T("calc_substr", calc("DS_X", [(None, "Me_9", paramop("substr", ["Me_4"], [1, 1]))]), n))
+    out.append(T("calc_substr_concat", calc("DS_X", [(None, "Me_9", binop("||", paramop("substr", ["Me_4"], [2]), "Me_4"))]), n))
     out.append(T("calc_len_upper", calc("DS_X", [(None, "Me_9", unop("length", unop("upper", "Me_4")))]), n))
     out.append(T("calc_div_expr", calc("DS_X", [(None, "Me_9", binop("/", "Me_2", binop("-", "Me_1", 2)))]), n))
     # depth 2 compositions
@@ -340,6 +345,12 @@ def c05(tier):
         out.append(T("%s_three" % op, setop(op, ["DS_4", "DS_5", "DS_4b"]), 2, structs=POOL + [S("DS_4b", ID2, [("Me_1", "Integer")])]))
         out.append(T("%s_four" % op, setop(op, ["DS_4", "DS_5", "DS_4b", "DS_4c"]), 2,
                      structs=POOL + [S("DS_4b", ID2, [("Me_1", "Integer")]), S("DS_4c", ID2, [("Me_1", "Integer")])]))
+    # exists_in: same identifiers, right operand with fewer identifiers, each retain option, nested operand
+    for ret, tag in ((None, "plain"), (True, "true"), (False, "false"), ("all", "all")):
+        out.append(T("exists_in_%s" % tag, exists_in("DS_4", "DS_5", ret), 2))
+        out.append(T("exists_in_narrow_right_%s" % tag, exists_in("DS_4", "DS_6", ret), 2))
+    out.append(T("exists_in_of_filter", exists_in("DS_4", filter_("DS_5", binop(">", "Me_1", 0))), 2))
+    out.append(T("exists_in_then_filter", filter_(exists_in("DS_4", "DS_5", "all"), "bool_var"), 2))
     out.append(T("union_self", setop("union", ["DS_4", "DS_4"]), 2))
     out.append(T("union_of_filter", setop("union", [filter_("DS_4", binop(">", "Me_1", 0)), "DS_5"]), 2))
     out.append(T("setdiff_of_union", setop("setdiff", [setop("union", ["DS_4", "DS_5"]), "DS_4b"]), 2, structs=POOL + [S("DS_4b", ID2, [("Me_1", "Integer")])]))
